@@ -182,12 +182,37 @@ fn cmd_replay(args: &[String]) {
                     // operand lists: the machine's free operand order makes their validation exponential)
                     // the member order of objects is immaterial (C15 says so for `in`; no statement gives it a meaning
                     // anywhere else): the same call with every object's members in the opposite order must agree
-                    if verdict.is_none() && c.helper.is_none() && (aj::has_multi(&c.rule) || aj::has_multi(&c.data)) {
-                        let o3 = run::run_apply(&aj::reverse_members(&c.rule), &aj::reverse_members(&c.data));
-                        if o3.crash.is_some() {
-                            verdict = Some("the call crashed with the members of its objects in the opposite order".to_string());
-                        } else if let Some(w) = run::compare(&run::outcome_aj(&o3), &o, false, false) {
-                            verdict = Some(format!("the outcome depends on the member order of objects ({}): with reversed members {}", w, run::outcome_plain(&o3)));
+                    // (only meaningful - and only run - when the crate under test makes serde_json keep the document's order)
+                    if verdict.is_none() && c.helper.is_none() && aj::preserves_order() && (aj::has_multi(&c.rule) || aj::has_multi(&c.data)) {
+                        let variants = [
+                            (aj::reverse_members(&c.rule), aj::reverse_members(&c.data)),
+                            (aj::reverse_members_alternating(&c.rule), aj::reverse_members_alternating(&c.data)),
+                            (aj::reverse_members(&c.rule), c.data.clone()),
+                        ];
+                        for (r3, d3) in variants.iter() {
+                            let o3 = run::run_apply(r3, d3);
+                            if o3.crash.is_some() {
+                                verdict = Some("the call crashed with the members of its objects in another order".to_string());
+                                break;
+                            } else if let Some(w) = run::compare(&run::outcome_aj(&o3), &o, false, false) {
+                                verdict = Some(format!("the outcome depends on the member order of objects ({}): rule {} data {} gives {}", w, r3, d3, run::outcome_plain(&o3)));
+                                break;
+                            }
+                        }
+                    }
+                    // a number is its value, not its spelling: when the crate's serde_json keeps spellings, the same call
+                    // with every non-integral number spelled with a redundant zero must agree (no-op with the default build)
+                    if verdict.is_none() && c.helper.is_none() {
+                        {
+                            let (r2, d2) = (aj::respelled(&c.rule), aj::respelled(&c.data));
+                            if r2.is_some() || d2.is_some() {
+                                let o4 = run::run_apply(r2.as_ref().unwrap_or(&c.rule), d2.as_ref().unwrap_or(&c.data));
+                                if o4.crash.is_some() {
+                                    verdict = Some("the call crashed with its numbers spelled with a redundant zero".to_string());
+                                } else if o4.ok != o.ok || (o.ok && !aj::same(&aj::to_aj(&o.v), &aj::to_aj(&o4.v), true)) {
+                                    verdict = Some(format!("the outcome depends on the SPELLING of a number (1.5 vs 1.50): respelled call gives {}", run::outcome_plain(&o4)));
+                                }
+                            }
                         }
                     }
                     if let Some(w) = evw.as_mut().filter(|_| !fl["noev"].as_bool().unwrap_or(false)) {
